@@ -3,7 +3,10 @@ from copy import deepcopy
 from fractions import Fraction
 from xml.sax.saxutils import escape, quoteattr
 
-from bs4 import BeautifulSoup, NavigableString
+from bs4 import (
+    BeautifulSoup, NavigableString, Comment, ProcessingInstruction,
+    Declaration, Doctype,
+)
 from bs4.formatter import XMLFormatter
 
 from ..base import (
@@ -241,6 +244,10 @@ class DFXPReader(BaseReader):
         return int(microseconds)
 
     def _convert_tag_to_node(self, tag):
+        # comments, processing instructions and declarations are not text
+        if isinstance(tag, (Comment, ProcessingInstruction, Declaration,
+                            Doctype)):
+            return
         # convert text
         if isinstance(tag, NavigableString):
             # strips indentation whitespace only
